@@ -91,6 +91,9 @@ func (m *MonC08) OnReq(w *World, r *Req) {
 				if soCluster == r.Cluster && w.normKey(r.Cluster, so.Key) == k {
 					cause := w.Taint[r.Cluster+"|"+k.String()]
 					if cause == "" {
+						cause = w.Taint["run"]
+					}
+					if cause == "" {
 						cause = "unreported-control"
 						for _, c := range controllerOfList(set) {
 							if c.matches(k) {
